@@ -5,6 +5,7 @@ import bound_rules
 import validation_rules
 import xml_rules
 import bounds_rules
+import pcw_rules
 import header_rules
 import blob_rules
 
@@ -42,6 +43,7 @@ def run(ctx):
         ctx.call(bound_rules.loop_progress, prog, "R6", "writer", floor=8)
         ctx.call(bound_rules.allocation_sizes, prog, "R6", "writer")
         ctx.call(bound_rules.equal_length_classes, prog, "R6")
+        ctx.call(pcw_rules.packet_capacity_units, prog, "R6")
         if cfg == "lib":
             ctx.call(xml_rules.xml_name_start, prog, "R7")
             ctx.call(xml_rules.escaping_gate, prog, "R8")
